@@ -64,6 +64,10 @@ CLAIMS = {
          'Evaluator::extract_lwe (coefficient-form branch verified, NTT branch reduced to it by the verified recursion over an abstract inverse transform) returns c1 = X^(2n-term) * ct[1] in every RNS component and c0[j] = coefficient `term` of component j of ct[0], copies level / scale / correction factor, and refuses invalid or wrong-size inputs; '
          'LWECiphertext::assemble_lwe lays out a size-2 coefficient-form ciphertext with c0[j] as constant coefficient of component j (all other coefficients of polynomial 0 zero) and c1 as polynomial 1; a spec-level lemma composes the two (extract then assemble puts coefficient `term` at the constant position). '
          'Not covered: that the assembled ciphertext DECRYPTS to the coefficient (needs the ring identity <X^-t c1, s> and noise), field_trace_inplace, pack_lwe_ciphertexts (unsafe aliasing, key switching), divide_by_poly_modulus_degree_inplace (iterator closures).', '5 C19'),
+ 'C12': ('The integer entry point only: CKKSEncoder::encode_internal_i64_single is proved, for every i64 (negative values and values larger than a single prime included), every level and every chain, to produce the constant polynomial whose every coefficient of RNS component j is value mod q_j '
+         '(so all components hold the residues of ONE integer), at scale 1 and on the requested level, and to refuse unknown levels, non-CKKS contexts and values whose bit count + 2 reaches the total modulus size. '
+         'Not covered (the larger part of the property): every floating-point path (vector / single real / single complex / coefficient list, the three magnitude branches, FFT and root tables, decode) - Verus has no model of f64 arithmetic, rounding or casts, '
+         'so "rounded scaled canonical embedding up to double-precision error" cannot be stated as a contract; those paths are NOT decided.', '5 C12'),
  'C15': ('Serializers without context (scalars, Vec<T>, Modulus, ParmsID, SchemeType, Plaintext, EncryptionParameters, byte-width packing helpers) are verified '
          'against an abstract model of std::io::{Read,Write} quantified over all implementations: Ok implies the complete encoding was written / exactly one encoding '
          'consumed, and no unwrap/panic is reachable. Context-dependent objects (ciphertexts, keys, containers) are not covered.', '5 C15'),
@@ -76,7 +80,7 @@ NOT_APPLICABLE = {
  'C18': 'agreement across n parties and all message delivery orders is a whole-history property; the per-call code sits behind iterator closures, context plumbing and serialization and no contract within reach connects it to "keys correspond to the sum of secret keys"',
 }
 
-PENDING = ['C07', 'C11', 'C12', 'C13', 'C20']
+PENDING = ['C07', 'C11', 'C13', 'C20']
 
 
 def main():
